@@ -789,6 +789,38 @@ pub fn gen(purpose: Purpose, tier: Tier, seed: u64, index: u64) -> Workload {
         };
         w.observers = r3.chance(0.5);
     }
+    // block sizes off the fixed list (own PRNG stream): any size 32..=700, and the sizes the frame header codes
+    // specially (192, 576 << n, 256 << n) that the small list lacks. Plain fault-free workloads only, so that
+    // read plans and fault positions made above stay what they were.
+    {
+        let mut r4 = Rng::new(mix(mix(seed, index), 0x8A11_0003));
+        let plain = w.nfull <= 12
+            && w.block <= 576
+            && !w.synthetic_silence
+            && w.faults.is_empty()
+            && w.probe_reads.is_empty()
+            && w.pre_reads == 0
+            && w.pre.is_none()
+            && w.cfg_block.is_none();
+        if plain && r4.chance(0.12) {
+            if r4.chance(0.7) {
+                w.block = 32 + r4.below(669);
+            } else {
+                w.block = *r4.pick(&[512usize, 1024, 1152, 2048, 2304]);
+                w.nfull = w.nfull.min(3);
+                if w.channels > 2 {
+                    w.channels = 2;
+                    w.sig_kinds.truncate(2);
+                }
+            }
+            w.residue = match r4.below(4) {
+                0 => 0,
+                1 => w.block - 1,
+                2 => 1,
+                _ => r4.below(w.block),
+            };
+        }
+    }
     w
 }
 
@@ -881,7 +913,7 @@ pub fn tame(w: &mut Workload) {
 pub fn fresh_small(r: &mut Rng) -> Workload {
     let channels = if r.chance(0.4) { 2 } else { 1 + r.below(8) };
     let bits = *r.pick(BITS);
-    let block = *r.pick(SMALL_BLOCKS);
+    let block = if r.chance(0.15) { 32 + r.below(269) } else { *r.pick(SMALL_BLOCKS) };
     let nfull = match r.below(8) {
         0 => 0,
         1..=4 => 1,
